@@ -90,6 +90,11 @@ def run(ctx):
             with vlib.Lock():
                 vlib.regen(ctx.pid)   # another check may have regenerated Gen from a different tree meanwhile
                 model_ok, _ = vlib.make(["Model/C15Check.vo"])
+        elif kind == "translator":
+            # search for a failing input with the model as last generated (see tools/props/c14.py)
+            with vlib.Lock():
+                model_ok, _ = vlib.make(["Model/C15Check.vo"])
+            ctx.note("translation failed; the failing-input search uses the last successfully generated Gen files")
     if model_ok:
         verdicts = run_model(cases)
         ctx.cov["evaluations"] = len(cases)
